@@ -91,6 +91,11 @@ def run(repo: Repo, L: Ledger, tier: str):
     fsit = ovr.methods.get("fragment_start_if_trimmed")
     if not all((cut, trim, fsit)):
         raise AnalysisError("anchors cut_fragments / trim_fragment / fragment_start_if_trimmed vanished")
+    # R1 interprets the three functions together: each must still be the function the affine model was confirmed on
+    from ..drift import require_in_region
+
+    for fn_ in (cut, trim, fsit):
+        require_in_region(fn_, "the tiling of a cut contig by its owners' pieces")
 
     cs, ce, P = Lin.atom("cs"), Lin.atom("ce"), Lin.atom("P")
     Lc = ce - cs + 1
